@@ -7,7 +7,7 @@ textual order, name order and hash order all differ.
 """
 import itertools
 
-NAMINGS = (("d", "a", "c", "b", "e"), ("zz", "B", "a1", "_x", "Q"))
+NAMINGS = (("d", "a", "c", "b", "e"), ("zz", "B", "a1", "_x", "Q"), ("ndvi", "NDVI", "Ndvi", "x", "X"))  # (third: names that differ in case only)
 
 
 def slots_of(n, edges, i, names):
